@@ -127,7 +127,12 @@ func runC18(run *Run, replay string) {
 					// ... or with other declarations, whose byte ranges overlap those of the edited file at random
 					other = genTf(r).Src
 				}
-				pd := w.AddPath("root", tfSchema(), map[string]string{"main.tf": string(sc.Src), "other.tf": other}, sc.Main.Ctx.Functions)
+				// the other file sorts behind the edited one, or in front of it
+				otherName := "other.tf"
+				if (bi/4)%3 == 1 {
+					otherName = "a_first.tf"
+				}
+				pd := w.AddPath("root", tfSchema(), map[string]string{"main.tf": string(sc.Src), otherName: other}, sc.Main.Ctx.Functions)
 				sc = &Scenario{W: w, Main: pd, File: "main.tf", Src: sc.Src, Kind: "tf"}
 			}
 		} else {
